@@ -14,7 +14,7 @@ pub struct CheckDef {
     pub rule: &'static str,
 }
 
-pub const PROPS: &[&str] = &["C01", "C02", "C04", "C05", "C06", "C07", "C08", "C09", "C18"];
+pub const PROPS: &[&str] = &["C01", "C02", "C04", "C05", "C06", "C07", "C03", "C08", "C09", "C10", "C11", "C12", "C13", "C14", "C15", "C16", "C18", "C19"];
 
 pub fn def(prop: &str) -> Option<CheckDef> {
     let rule_mpmc = "cases drawn from the run seed by the role-separated mpmc generator (tasks x ops x capacity x payload class x handle flavours x poll plans x fault knobs); a case is non-trivial when operations of at least two tasks overlapped in simulated real time; distinct = distinct (case hash, op-level history hash) pairs";
@@ -27,6 +27,26 @@ pub fn def(prop: &str) -> Option<CheckDef> {
         "C07" => CheckDef { prop: "C07", quick_runs: 120_000, thorough_runs: 6_000_000, level: "exploration", rule: rule_mpmc },
         "C08" => CheckDef { prop: "C08", quick_runs: 120_000, thorough_runs: 6_000_000, level: "exploration", rule: rule_mpmc },
         "C09" => CheckDef { prop: "C09", quick_runs: 120_000, thorough_runs: 6_000_000, level: "exploration", rule: rule_mpmc },
+        "C10" | "C11" | "C12" | "C13" | "C14" | "C15" | "C16" | "C19" => {
+            let p: &'static str = match prop {
+                "C10" => "C10",
+                "C11" => "C11",
+                "C12" => "C12",
+                "C13" => "C13",
+                "C14" => "C14",
+                "C15" => "C15",
+                "C16" => "C16",
+                _ => "C19",
+            };
+            CheckDef { prop: p, quick_runs: 200_000, thorough_runs: 8_000_000, level: "exploration", rule: rule_mpmc }
+        }
+        "C03" => CheckDef {
+            prop: "C03",
+            quick_runs: 200_000,
+            thorough_runs: 8_000_000,
+            level: "exploration",
+            rule: "small multi-task programs (2-3 tasks x 1-3 calls over the whole API: every send/receive variant, drain, iterator, close, clone/convert/drop, all observers; tasks may hold both sides) run under seeded schedules; the observed results are accepted only if an exhaustive memoised search over the reference channel's atomic-step interleavings reproduces them; non-trivial = operations of two tasks overlapped; distinct = distinct (case hash, history hash)",
+        },
         "C18" => CheckDef {
             prop: "C18",
             quick_runs: 400_000,
@@ -54,6 +74,13 @@ pub fn make_case(prop: &str, run_seed: u64, index: u64, tier: &str) -> Case {
 }
 
 pub fn evaluate(prop: &str, d: &RunData) -> (Vec<Violation>, Vec<Violation>) {
+    if prop == "C03" {
+        let a = oracle::Analysis::new(d);
+        let mut all = oracle::o_abort(&a);
+        all.extend(crate::explain::o_explain(d).0);
+        let owned = ["explain/none", "panic/undocumented"];
+        return all.into_iter().partition(|x| owned.iter().any(|p| x.sig.starts_with(p)));
+    }
     if prop == "C18" {
         let a = oracle::Analysis::new(d);
         let mut all = oracle::o_abort(&a);
